@@ -38,6 +38,7 @@ ASSUMPTIONS = [
 BOUND = {"quick": "20 directories (3 distinct kinds of 6) x K in {2,3} x all schedules x {lint, fix} x 2 path orders; templating-in-main on K=2", "thorough": "56 multisets, N=4 for distinct kinds, K up to 4"}
 FLOOR = {"quick": 1000, "thorough": 10000}
 CHUNK = 1
+TIMEOUT = 900  # per case; fresh child processes are slow when the machine is loaded
 
 KINDS = ["clean", "fixable", "unparsable", "jinja", "inline", "oversize"]
 TEXT = {
